@@ -29,7 +29,8 @@ MANIFEST = {
 
 REQUIRED = ["KV.C14.split_agree", "KV.C14.score_sum", "KV.C14.fast_eq_slow", "KV.C14.stateful_eq",
             "KV.C14.perplexity_def", "KV.C14.facade_identity", "KV.C14.split_nul_witness", "KV.C14.query_eq",
-            "KV.C14.facade_sentence", "KV.C14.table_agree"]
+            "KV.C14.facade_sentence", "KV.C14.table_agree", "KV.C14.whitespace_irrelevant", "KV.C14.oov_flags",
+            "KV.C14.split_normal_form"]
 
 COMBOS = ["TT", "TF", "FT", "FF"]
 PY_SPACES = b" \t\n\r\x0b\x0c"
@@ -773,7 +774,7 @@ def check_case(ctx, rep, name, s, nul, plan, h_sent, h_plan, h_third, py, q_ctx,
             if plan is not None and m.group(1) != plan["fast"]:
                 fail("fast-structure", "score_sentence.cc looks up / scores a different word sequence than the model's scoreFast "
                      "(tokeniser over kSpaces up to the first NUL, from <s>, then </s>)",
-                     {"implementation": m.group(1), "model": plan["fast"]})
+                     {"implementation": m.group(1), "lean_model": plan["fast"]})
             # the fast path seen from Python
             if py["score.TT"] != int(m.group(2)):
                 if isinstance(py["score.TT"], str) or abs(bits2f(py["score.TT"]) - bits2f(int(m.group(2)))) > 1e-4:
@@ -781,9 +782,9 @@ def check_case(ctx, rep, name, s, nul, plan, h_sent, h_plan, h_third, py, q_ctx,
                          {"python": _f(py["score.TT"]), "cxx": bits2f(int(m.group(2)))})
     if plan is not None:
         if py["split"] != ([] if plan["py"] == "-" else plan["py"].split(",")):
-            fail("pysplit", "the model's pySplit differs from CPython's bytes.split()", {"python": py["split"], "model": plan["py"]})
+            fail("pysplit", "the model's pySplit differs from CPython's bytes.split()", {"python": py["split"], "lean_model": plan["py"]})
         if int(plan["ppl"]) != len(s.split()) + 1:
-            fail("ppl-words", "model's perplexity word count differs", {"model": plan["ppl"]})
+            fail("ppl-words", "model's perplexity word count differs", {"lean_model": plan["ppl"]})
     if plan is not None and plan.get("q", "x") != "x":
         for q, with_ctx in ((q_ctx, True), (q_noctx, False)):
             if q is None:
@@ -792,7 +793,7 @@ def check_case(ctx, rep, name, s, nul, plan, h_sent, h_plan, h_third, py, q_ctx,
             want = ([] if plan["q"] == "-" else plan["q"].split(",")) + (["3c2f733e"] if with_ctx else [])
             if surf != want:
                 fail("query-structure", "bin/query reads a different word sequence from the line than the model's queryWords "
-                     "(ReadWordSameLine over kSpaces; </s> appended with sentence context)", {"query": surf, "model": want})
+                     "(ReadWordSameLine over kSpaces; </s> appended with sentence context)", {"query": surf, "lean_model": want})
     if h_plan is not None:
         if "VMISMATCH" in h_plan:
             fail("facade", "the virtual interface (BaseFullScore/BaseScore/BeginSentenceWrite/NullContextWrite/BaseVocabulary) "
